@@ -282,7 +282,9 @@ func runC40(c *mon.Ctx) {
 		"(3) tgerr.FloodWait(ctx, err, FloodWaitWithClock(fake)) for FLOOD_WAIT_n / FLOOD_PREMIUM_WAIT_n (bare and %w-wrapped): the harness clock records the timer the call " +
 		"creates (must be >= n s + 1 s), walks neo fake time to n/2, n and n+1s-1ns (call must still be blocked), then to n+1s (call must return (true, same err)); " +
 		"cancellation arm: cancel before the deadline -> (false, context.Canceled); non-flood errors must return (false, err) without creating a timer. " +
-		"distinct non-trivial = distinct (words, position, word classes, digits of the argument, leading zeros) resp. (kind, wrapping, arm, digits)")
+		"(4) history arm (signature prefix history|): sequences mixing FloodWait calls with FloodWaitWithClock(A), with another fake clock B, without options (system clock, " +
+		"FLOOD_WAIT_0) and concurrent A||B pairs, in both orders: every timer must be created on the clock of its own call (seen at the harness clock boundary), an option-less call must " +
+		"not touch a fake clock nor return before 1 s of real time, advancing foreign clocks must not release a call. distinct non-trivial = distinct (words, position, word classes, digits of the argument, leading zeros) resp. (kind, wrapping, arm, digits)")
 	c.Assume("the safety margin is the 1 s the code documents (timer := d + 1*time.Second); github.com/gotd/neo fake time is trusted")
 
 	// ---- (1) structured messages ---------------------------------------------
@@ -403,6 +405,11 @@ func runC40(c *mon.Ctx) {
 		c.Distinct("crash/" + kind)
 	}
 	c.Set("crash_only_shapes", crashKinds)
+
+	// ---- (4) history arm: clocks must not leak between calls ----------------------
+	// (runs before arm 3 so that the only fake clocks this process has used so far are
+	// the two the arm watches)
+	c40HistoryArm(c)
 
 	// ---- (3) flood wait timing --------------------------------------------------
 	r = c.Rand("c40-flood")
